@@ -15,7 +15,7 @@ ASSUMPTIONS = ["hash-seed runs use fresh subprocesses with PYTHONHASHSEED in a s
 
 
 def gen_prog(rng, union_rate=0.35):
-    spec = random_spec(rng, kinds=("plain", "plain", "plain", "abc"))
+    spec = random_spec(rng, kinds=("plain", "plain", "plain", "abc", "proto"))
     w = World(spec)
     defs = R.gen_static_defs(rng, w, allow_kw=False, allow_dup=False, allow_arity=False)
     cls_ids = [0, 2, 3] + w.user_ids()
@@ -51,7 +51,7 @@ def run_order(prog, order):
     mres = model.run_cases([[10, w.encode(), mms, [[0, k] for k in keys]]])[0]
     impl = []
     for call in prog["calls"]:
-        o, _ = b.call([w.instance(c) for c in call["pos"]])
+        o, _ = b.call([w.instance(c) for c in call["pos"]], {f"k{k}": w.instance(c) for k, c in call.get("kw", {}).items()})
         impl.append(R.normalise(o, defs, call))
     return impl, [progs.dec_outcome(m) for m in mres]
 
@@ -159,6 +159,35 @@ def check(ctx, prog, stats, do_sub):
                 else:
                     ctx.violation(f"a method not applicable to the call changes its outcome: {impl0[i]} -> {impl_e[i]}", dict(ext, calls=[ext["calls"][i]]))
                     return
+    # the same with keywords in play: every method also takes an optional keyword k8 which every call passes; the added
+    # methods require a keyword (k7) no call passes and declare k8 too -- their required names are then neither a subset
+    # nor a superset of the names passed
+    if all(len(d["pos"]) == d["npos_req"] and t[0] == 0 for d in prog["defs"] for t in d["pos"]) and rng.random() < 0.5:
+        inst0 = prog["calls"][0]["pos"][0] if prog["calls"] and prog["calls"][0]["pos"] else 0
+        kdefs = [dict(d, kw=[[8, [0, 0], False]]) for d in prog["defs"]]
+        kcalls = [dict(c, kw={"8": inst0}) for c in prog["calls"] if len(c["pos"]) == max(len(d["pos"]) for d in prog["defs"])]
+        if kcalls:
+            kprog = dict(prog, defs=kdefs, calls=kcalls)
+            kextra = [dict(e, kw=[[7, [0, 0], True], [8, [0, 0], False]], pos=e["pos"][:len(kdefs[0]["pos"])], npos_req=len(kdefs[0]["pos"])) for e in extra]
+            kext = dict(kprog, defs=kdefs + kextra)
+            i0, m0 = run_order(kprog, list(range(len(kdefs))))
+            i1, m1 = run_order(kext, list(range(len(kext["defs"]))))
+            stats["evaluations"] += len(i0) + len(i1)
+            stats["keyword_irrelevance_calls"] += len(i1)
+            if i0 != m0 or i1 != m1:
+                ctx.violation(f"keyword programs: implementation {i0} / {i1} != model {m0} / {m1}", kext, kind="correspondence")
+                return
+            if i0 != i1:
+                wk = world_from(kext["spec"])
+                ksres = model.run_cases([[13, wk.encode(), [progs.enc_method(d, 0) for d in kext["defs"]], [R.call_key(c) for c in kcalls]]])[0]
+                for j in range(len(i0)):
+                    if i0[j] != i1[j]:
+                        if not (bool(ksres[j][1]) and bool(ksres[j][2])):
+                            ctx.known_hit("KF-01", dict(kext, calls=[kcalls[j]]))      # the added methods' types shift the layer indices
+                            stats["irrelevant_dependent"] += 1
+                        else:
+                            ctx.violation(f"a method whose required keyword is not passed changes the outcome of the call: {i0[j]} -> {i1[j]}", dict(kext, calls=[kcalls[j]]))
+                            return
     # hash seeds / fresh processes, hook off
     if do_sub:
         outs = []
